@@ -58,6 +58,6 @@ Definition cow_mask : Z := 1603.
 (* cacheOnReadFs.go OpenFile: union handle over both layers iff flag&MASK != 0 *)
 Definition cache_mask : Z := 1603.
 (* unionFile.go ReadAt: 1 iff it seeks the base handle after reading the layer *)
-Definition union_readat_seeks_base : Z := 1.
+Definition union_readat_seeks_base : Z := 0.
 (* unionFile.go Readdir(c<=0): 1 iff the call advances the offset to the end of the listing *)
 Definition union_readdir_all_advances : Z := 1.
